@@ -157,14 +157,21 @@ class Built:
         self.raw = raw  # the BasicDSG before set_start_nodes
 
 
-def build(spec, initialize=True):
+def build(spec, initialize=True, staged=None):
+    """staged: None, ['start', name] (initialise once with {name} as the only start node, then again with the real start
+    nodes, on the same builder object) or ['edge', i] (initialise once without derivation edge i, add it, initialise
+    again): the result must be what a direct build gives."""
     from adsg_core.graph.adsg_basic import BasicDSG
     from adsg_core.graph.adsg_nodes import NamedNode
     nodes = {name: NamedNode(name) for name in spec['nodes']}
     g = BasicDSG()
     for name in spec['nodes']:
         g.add_node(nodes[name])
-    g.add_edges([(nodes[s], nodes[t]) for s, t in spec['derive']])
+    late_edge = None
+    derive = list(spec['derive'])
+    if staged and staged[0] == 'edge' and derive:
+        late_edge = derive.pop(staged[1] % len(derive))
+    g.add_edges([(nodes[s], nodes[t]) for s, t in derive])
     choices = {}
     for cid, origin, opts in spec['sel']:
         choices[cid] = g.add_selection_choice(cid, nodes[origin], [nodes[o] for o in opts])
@@ -214,6 +221,17 @@ def build(spec, initialize=True):
         choices[cc['id']] = g.add_connection_choice(cc['id'], sides[0], sides[1], exclude=excl)
     built = Built(None, nodes, choices, g)
     if initialize:
+        if staged and staged[0] == 'start' and staged[1] in nodes:
+            try:
+                g.set_start_nodes({nodes[staged[1]]})
+            except Exception:
+                pass  # the first, provisional initialisation may legitimately fail; the second one is what counts
+        elif late_edge is not None:
+            try:
+                g.set_start_nodes({nodes[s] for s in spec['start']})
+            except Exception:
+                pass
+            g.add_edge(nodes[late_edge[0]], nodes[late_edge[1]])
         built.dsg = g.set_start_nodes({nodes[s] for s in spec['start']})
     return built
 
